@@ -72,6 +72,31 @@ def scan(fn, alphabet, maxlen, minlen=0, nproc=NPROC):
             _JOB = None
 
 
+def scan_batches(fn, alphabet, length, k, nproc=NPROC):
+    """All sequences of exactly `length` tokens, cut into batches "prefix of length-k tokens + every k-token extension".
+    Yields (prefix_text, [(index_in_batch, fn(text)), ...] for the texts where fn(text) is not None), in prefix order.
+    `batch_texts(alphabet, k, prefix)` lists a batch's texts in index order."""
+    global _JOB
+    _JOB = (fn, alphabet, k)
+    prefixes = list(seqs(alphabet, length - k))
+    if nproc <= 1:
+        for prefix in prefixes:
+            yield prefix, _task(prefix)
+        return
+    pool = multiprocessing.get_context("fork").Pool(min(nproc, len(prefixes)))
+    try:
+        for prefix, found in zip(prefixes, pool.imap(_task, prefixes, chunksize=4)):
+            yield prefix, found
+    finally:
+        pool.terminate()
+        pool.join()
+        _JOB = None
+
+
+def batch_texts(alphabet, k, prefix):
+    return list(seqs(alphabet, k, prefix))
+
+
 def with_timeout(fn, arg, limit_s):
     """Run fn(arg) in a forked child; return ("ok", result) or ("timeout", None) / ("died", exitcode).
     The child is killed when the wall limit passes, so a hang becomes a verdict instead of blocking the run."""
